@@ -499,6 +499,108 @@ def r23f(ctx, run):
         raise LookupError("grammar functions taking the parser: %d" % n_fns)
 
 
+# explicit panic sites of the parser crate that are NOT assertions about the current token: each one read and given a reason.
+# key: (function, text of the site).  A site that is neither decided by the token analysis nor listed here is a violation.
+PANIC_TRIAGED = {
+    ("parse_cast", "assert_eq!(previous_ty.kind(), NodeKind::Ty)"): "argument contract, checked below: every caller passes None or a marker it completed as NodeKind::Ty",
+    ("parse_struct_literal", "assert_eq!(previous_ty.kind(), NodeKind::Ty)"): "argument contract, checked below",
+    ("parse_array_literal", "assert_eq!(previous_ty.kind(), NodeKind::Ty)"): "argument contract, checked below",
+    ("Parser::parse", "assert!(event.is_some())"): "every Marker is completed or abandoned before it is dropped (drop bomb); not decided here (listed under not decided)",
+    ("Sink::finish", "assert!(matches!(self.events.first(), Some(Event::StartNode{..})))"): "entry points open the root node first and complete it last (R23.c: entry points run to EOF)",
+    ("Sink::finish", "assert!(matches!(self.events.last(), Some(Event::FinishNode)))"): "see above",
+    ("Parser::error_with_recovery_set_no_default", "self.expected_syntax.take().unwrap()"): "an error is only reported after a query that recorded what was expected (at/at_set/expect*); not decided here",
+    ("Marker::complete", "debug_assert!(old_event.is_none())"): "a marker position is filled once (the marker is consumed by complete/abandon)",
+    ("Tokens::new", "debug_assert_eq!(kinds.len() + 1, starts.len())"): "constructor contract of the token list, established by the lexer's push pairs (C22 R22.c)",
+    ("lex", "debug_assert_eq!(format!(\"{kind:?}\"), format!(\"{transmuted:?}\"))"): "guards the transmute between the two token enums (R22.b decides the variant tables agree)",
+}
+
+
+def _panic_sites(ctx):
+    """(function qual, file, line, text) of every explicit panic site in the non-test code of the parser, token and lexer crates"""
+    out = []
+    for f in ctx.syn.fns:
+        if f.in_test or f.body is None:
+            continue
+        if not (("parser/src" in f.file and "/tests" not in f.file) or f.file.endswith("token/src/lib.rs") or f.file.endswith("lexer/src/lib.rs")):
+            continue
+        for n in walk(f.body):
+            if n.get("k") == "macro":
+                nm = n["name"].rsplit("::", 1)[-1]
+                if nm in ("assert", "assert_eq", "assert_ne", "debug_assert", "debug_assert_eq", "debug_assert_ne", "panic", "unreachable", "todo", "unimplemented"):
+                    args = n.get("a") if isinstance(n.get("a"), list) else None
+                    text = "%s!(%s)" % (nm, ", ".join(canon(a) for a in args[:2]) if args else n.get("tokens", "")[:80])
+                    out.append((f.qual, f.file, n["ln"], text, n))
+            if n.get("k") == "mcall" and n["m"] in ("unwrap", "expect") and canon(n["r"]) not in ("p", "self"):
+                out.append((f.qual, f.file, n["ln"], canon(n), n))
+    return out
+
+
+def r23g(ctx, run):
+    """totality, the explicit panics: every `assert!`/`panic!`/`unwrap` of the parser crate is either an assertion about the current token that the
+    token-knowledge analysis (lib/tokstate.py) proves on every path for every input, or a site that was read and is listed with its reason."""
+    import tokstate
+    an = analyzer(ctx)
+    ts = tokstate.Analysis(ctx.syn, an)
+    rounds = ts.solve()
+    # entry points accept every first token
+    for root in ("source_file", "repl_line"):
+        if root not in ts.pre:
+            raise LookupError("grammar entry point %s" % root)
+        missing = ts.ALL - ts.pre[root]
+        f = ts.fns[root]
+        run.check(not missing, f.site(), "%s: no entry assertion can fail whatever the first token is" % root, root, "entry-total:" + root, f.file, f.ln,
+                  "entering %s with first token %s reaches an assertion about the current token that fails" % (root, sorted({x[0] for x in missing})[:6]))
+    for fname, ln, what in ts.findings:
+        f = ts.fns[fname]
+        run.finding("parser::grammar::" + fname, "token-assert:%s" % what.split(";")[0][:70], f.file, ln, "%s: %s (the parser panics on such an input instead of reporting a syntax error)" % (fname, what))
+    n_dec = 0
+    for (fname, ln), text in sorted(ts.decided.items()):
+        if not any(x[0] == fname and x[1] == ln for x in ts.findings):
+            n_dec += 1
+            run.ok(ts.fns[fname].site(ln), "%s: assert!(%s) holds at every call site (contract: %d of %d token pairs admitted)" % (fname, text[:60], len(ts.pre[fname]), len(ts.ALL)))
+    if n_dec < 20 or ts.n_calls < 80:
+        raise LookupError("token assertions decided: %d, grammar call sites checked: %d" % (n_dec, ts.n_calls))
+    # the inventory: everything else must have been read
+    decided_lines = {(fn, ln) for (fn, ln) in ts.decided}
+    for qual, file, ln, text, node in _panic_sites(ctx):
+        short_q = qual.rsplit("::", 1)[-1] if "::" in qual and not qual.startswith(("Parser::", "Sink::", "Marker::", "Tokens::")) else qual
+        if (short_q, ln) in decided_lines:
+            continue
+        key = (short_q, text.replace(" ", "")) if False else (short_q, text)
+        def norm(x):
+            return x.replace(" ", "").replace("(", "").replace(")", "")
+        hit = next((r for (q, t), r in PANIC_TRIAGED.items() if q == short_q and norm(t) == norm(text)), None)
+        if hit:
+            run.exempt("%s:%d" % (file, ln), "%s: %s" % (short_q, text[:80]), hit)
+        else:
+            run.finding(qual, "untriaged-panic:" + text.replace(" ", "")[:60], file, ln,
+                        "%s contains `%s`: an explicit panic in the parser that is neither an assertion about the current token (decided by the token analysis) nor a site that "
+                        "was read and listed with a reason - parsing must return a tree for every input" % (qual, text[:100]))
+    # argument contract of the three `previous_ty` assertions: None, or a marker that was completed as NodeKind::Ty (directly, or by parse_ty, whose every
+    # Some(..) result is one)
+    import prov
+    pty = ts.fns.get("parse_ty")
+    if pty is None:
+        raise LookupError("parse_ty")
+    somes = [n for n in walk(pty.body) if n.get("k") == "call" and canon(n["f"]) == "Some"]
+    run.check(bool(somes) and all(canon(n["a"][0]).replace(" ", "").endswith("complete(p,NodeKind::Ty)") for n in somes), pty.site(), "parse_ty: every Some(..) it returns was completed as NodeKind::Ty",
+              "parser::grammar::parse_ty", "parse-ty-returns-ty", pty.file, pty.ln, "parse_ty returns a marker that was not completed as NodeKind::Ty: the callers hand it to functions that assert that kind")
+    for f in ts.fns.values():
+        if not any(c_ in canon(f.body) for c_ in ("parse_cast(", "parse_struct_literal(", "parse_array_literal(")):
+            continue
+        P = prov.Prov(f)
+
+        def on(n, sc, f=f, P=P):
+            if n.get("k") == "call" and n["f"].get("k") == "path" and n["f"]["p"].rsplit("::", 1)[-1] in ("parse_cast", "parse_struct_literal", "parse_array_literal") and len(n["a"]) >= 2:
+                callee = n["f"]["p"].rsplit("::", 1)[-1]
+                a = n["a"][1]
+                tags = P.tags(a, sc)
+                good = canon(a) == "None" or ("m:complete" in tags and "name:NodeKind::Ty" in tags) or "f:parse_ty" in tags or tags == {"param:previous_ty"}
+                run.check(good, f.site(n["ln"]), "%s passes %s to %s" % (f.qual, canon(a)[:30], callee), "parser::grammar::" + f.qual, "previous-ty:%s" % callee, f.file, n["ln"],
+                          "%s hands %s to %s, which asserts that a given type marker was completed as NodeKind::Ty; it is computed from %s" % (f.qual, canon(a)[:40], callee, sorted(tags)[:5]))
+        P.visit(on)
+
+
 def rules(ctx):
     return [
         Rule("R23.a", "every parser loop consumes a token or exits, for every token kind and every reachable recovery-set context; index loops are monotone; parser and sink agree on the trivia kinds", 30, r23a),
@@ -506,5 +608,6 @@ def rules(ctx):
         Rule("R23.c", "only bump consumes; look-ahead restores the cursor on every exit; entry points run to EOF; the sink adds every token once", 16, r23c),
         Rule("R23.d", "the two unsafe blocks are guarded by their asserts and by the one-byte Event layout", 6, r23d),
         Rule("R23.f", "every bump follows a trivia-skipping query (or bump skips trivia itself): parser and sink stay in step whatever whitespace the input has", 1, r23f),
+        Rule("R23.g", "explicit panics: every assertion about the current token holds on every path (token-knowledge typestate over all grammar functions); every other panic site is listed with a reason", 40, r23g),
         Rule("R23.e", "syntax-error locations are token ranges", 4, r23e),
     ]
